@@ -13,11 +13,18 @@ ParentLists(n) ==
 RECURSIVE GraphsOf(_)
 GraphsOf(n) == IF n = 0 THEN {<<>>} ELSE {Append(P, ps) : P \in GraphsOf(n - 1), ps \in ParentLists(n)}
 Graphs == UNION {GraphsOf(m) : m \in MinRev..MaxRev}
-Covers(P, t, s) == Anc0(P, t) \cup Anc0(P, s) = DOMAIN P
-Triples == {x \in Graphs \X (0..MaxRev) \X (0..MaxRev) : x[2] <= Len(x[1]) /\ x[3] <= Len(x[1]) /\ Covers(x[1], x[2], x[3])}
+\* every revision is an ancestor of a head (a revision that is nobody's parent), so (t, s) covers P iff {t, s} contains
+\* all heads: no ancestry computation is needed to enumerate the universe
+HeadsOfGraph(P) == DOMAIN P \ UNION {ParentSet(P, r) : r \in DOMAIN P}
+Covers(P, t, s) == HeadsOfGraph(P) \subseteq {t, s}
+Graphs2 == {P \in Graphs : Cardinality(HeadsOfGraph(P)) <= 2}
+PairsOf(P) == LET h == HeadsOfGraph(P)
+              IN IF Cardinality(h) = 1 THEN LET x == CHOOSE y \in h : TRUE IN {<<x, y>> : y \in 0..Len(P)} \cup {<<y, x>> : y \in 0..Len(P)}
+                 ELSE {<<x, y>> \in h \X h : x # y}
+Triples == UNION {{<<P, p[1], p[2]>> : p \in PairsOf(P)} : P \in Graphs2}
 \* branches: a graph, a tip, and the other tips s that make (t, s) a covering pair
-Branches == {x \in Graphs \X (1..MaxRev) : x[2] <= Len(x[1]) /\ \E s \in 0..Len(x[1]) : Covers(x[1], x[2], s)}
-OthersOf(P, t) == {s \in 0..Len(P) : Covers(P, t, s)}
+Branches == UNION {{<<P, p[1]>> : p \in {q \in PairsOf(P) : q[1] # Null}} : P \in Graphs2}
+OthersOf(P, t) == {p[2] : p \in {q \in PairsOf(P) : q[1] = t}}
 Sample(S) == LET all == SetToSeq(S) IN {all[k] : k \in {j \in DOMAIN all : (j + Offset) % Stride = 0}}
 B2N(b) == IF b THEN 1 ELSE 0
 =============================================================================
